@@ -17,6 +17,10 @@ CHECKS = {
             "Every single-token deletion, truncation, substitution, insertion and adjacent swap of base scripts covering every rule context, and every token soup up to the stated length after valid prefixes, is run through the real syntax stage, loads and (for a stratified subset plus every non-ASCII text) load; verdict, exception type and reported position are compared with a recogniser derived mechanically from blackbird.g4. Complete for the stated alphabet and bounds.",
             "Trusted: g4 reader, reference tokenizer and Earley recogniser (themselves proved equal to the shipped automata by C14). LF line ends only; message wording not inspected.",
             "DESIGN.md section 5 C10"),
+    "C03": ("exploration", "bounded-exhaustive enumeration of expression token strings and literal forms vs precedence-climbing reference evaluator",
+            "All well-formed expression token strings up to the stated number of operand positions (every operand tuple, stacked unary signs, operator tuple, bracket span set, function application at every span, with and without blanks) and every numeric-literal string up to a length bound accepted by the grammar-derived lexer are evaluated by the implementation and by an independent reference (precedence climbing from the property's binding order; exact ints, IEEE doubles, cmath). Complete for the stated alphabets/bounds.",
+            "Trusted: reference parser/evaluator, math/cmath, fractions. Tolerance 1e-12 x largest intermediate + sensitivity probe; out-of-domain cases dropped by the reference only.",
+            "DESIGN.md section 5 C03"),
     # id: (category, technique, text, note, design_ref)
     "C02": ("exploration", "bounded-exhaustive enumeration of script prefixes (BFS over item sequences) vs reference denotation",
             "Every item sequence over the statement menu up to the stated depth is rendered, loaded by the real parser/evaluator and compared with an independently written reference denotation; complete for the stated alphabet and depth, nothing beyond.",
